@@ -50,6 +50,12 @@ structure EigContract [Add α] [Mul α] [Zero α] [One α] (G : Mat α) (m K : N
   eig : ∀ k, k < K → IsEigCol G V m k (w.getD k 0)
   ortho : OrthonormalCols V m K
 
+/-- A Tucker tensor as `ttensor` validates it: one factor per core mode, with as many columns as
+the core has entries in that mode. -/
+structure Ttensor.WFn (T : Ttensor α) : Prop where
+  len : T.factors.length = T.core.shape.length
+  rows : ∀ k, k < T.factors.length → ∀ row ∈ T.factors.getD k [], row.length = T.core.shape.getD k 0
+
 /-! Boolean versions for exact evaluation by the driver. -/
 
 def orthonormalColsB [Add α] [Mul α] [Zero α] [One α] [BEq α] (V : Mat α) (m K : Nat) : Bool :=
